@@ -675,6 +675,9 @@ static int c07_cmd (char *line)
     {
       for (int i = 1; i < n; i++)
         intern (tok[i]);
+      /* bodies hand function pointers to /c07/caller: it must exist before they run (the generated objects have no
+       * euid and could not load it) */
+      caller_ob ();
       return 1;
     }
   if (!strcmp (tok[0], "ld") && n == 3)
